@@ -15,6 +15,7 @@ import (
 	"bwverif/rt"
 
 	"github.com/google/badwolf/bql/table"
+	"github.com/google/badwolf/triple"
 )
 
 // plainResult runs SELECT <all bindings> for the pattern and returns the rows
@@ -424,11 +425,52 @@ func c11Run(r *rt.Rec, rng *rand.Rand, n int) {
 	}
 }
 
+
+// c11SeparatorProbe: grouping by two columns whose values contain the pieces a
+// naive "join the columns with a separator" key would be made of: two different
+// combinations of grouping values must stay two groups.
+func c11SeparatorProbe(r *rt.Rec) {
+	ctx := context.Background()
+	p := gen.MustImm("p")
+	mk := func(a, b string) *triple.Triple {
+		return gen.MustTriple(gen.MustNode("/u", a), p, triple.NewNodeObject(gen.MustNode("/u", b)))
+	}
+	for _, sep := range []string{";", ";S:", ",", "|", "\t", " ", "\x00", "\x1e", ":", "/", "\"", ";N:/u", "S:"} {
+		// (x+sep+y, z) and (x, y+sep+z) are different pairs with the same concatenation
+		data := bq.Data{"?g1": {mk("x"+sep+"y", "z"), mk("x", "y"+sep+"z"), mk("x", "z"), mk("x"+sep+"y", "z2")}}
+		for _, text := range []string{
+			`SELECT ?ia, ?ib, count(?pp) AS ?n FROM ?g1 WHERE { ?a ID ?ia ?pp ?b ID ?ib } GROUP BY ?ia, ?ib;`,
+			`SELECT ?a, ?b, count(?pp) AS ?n FROM ?g1 WHERE { ?a ?pp ?b } GROUP BY ?a, ?b;`,
+			`SELECT ?ia, ?b, count(?pp) AS ?n FROM ?g1 WHERE { ?a ID ?ia ?pp ?b } GROUP BY ?b, ?ia;`,
+		} {
+			r.Begin(fmt.Sprintf("separator %q: %s", sep, text))
+			r.Eval(1)
+			st := bq.NewStore(ctx, data)
+			tbl, _, err := bq.Run(ctx, st, text, 0, 10)
+			if err != nil || tbl == nil {
+				r.Violation("separator-probe/unexpected-error", fmt.Sprintf("grouping by two columns failed: %v", err), map[string]interface{}{"statement": text, "data": bq.DataStrings(data)})
+				continue
+			}
+			bad := false
+			for _, row := range tbl.Rows() {
+				if c := row["?n"]; c == nil || c.L == nil || cv.Cell(c) != "L|int64|1" {
+					bad = true
+				}
+			}
+			if tbl.NumRows() != 4 || bad {
+				r.Violation("separator-probe/groups-merged", fmt.Sprintf("4 solutions with 4 different combinations of two grouping values give %d rows (every count must be 1): two combinations whose values concatenate to the same text around %q were merged", tbl.NumRows(), sep),
+					map[string]interface{}{"statement": text, "data": bq.DataStrings(data), "separator": sep, "rows": tbl.NumRows()})
+			}
+			r.NontrivialDistinct(1)
+		}
+	}
+}
+
 func init() {
 	register(&rt.Check{
 		ID:    "C11",
 		Level: "exploration",
-		Rule: "dense random data with int64 and float64 facts x 1-2 clause patterns x aggregate queries: 1-2 grouping bindings or aliases (columns mixing nodes, predicates, literals of several types), any mix of count / count(distinct) / sum projections (also the same binding aggregated twice), shuffled projection and GROUP BY order, patterns without solutions, the grouped query again with LIMIT n (min(n, groups) unchanged group rows); " +
+		Rule: "dense random data with int64 and float64 facts x 1-2 clause patterns x aggregate queries: 1-2 grouping bindings or aliases (columns mixing nodes, predicates, literals of several types), any mix of count / count(distinct) / sum projections (also the same binding aggregated twice), shuffled projection and GROUP BY order, patterns without solutions, two grouping columns whose values contain separator-like text ((x+sep+y, z) against (x, y+sep+z)), the grouped query again with LIMIT n (min(n, groups) unchanged group rows); " +
 			"oracle, decoupled from C03: the grouped result is compared with a reference grouping of the rows the real engine returns for the same pattern without GROUP BY (group key = canonical values; count = group size; distinct = distinct canonical values; sum in int64 / float64 arithmetic with a relative tolerance); exactly one row per group; empty pattern => empty table, no error; non-trivial = >=2 groups, one of size >=2, and a mixed-kind key column or a duplicate value inside a group; distinct by statement text",
 		Assume: []string{"sum is only generated over bindings whose values are all int64 or all float64", "the ungrouped SELECT of the same pattern is the input of the reference grouping (C03 ties it to the data)"},
 		Floor:  100,
@@ -437,7 +479,10 @@ func init() {
 			if tier == "thorough" {
 				n = 32000
 			}
-			return []rt.Phase{{Name: "groupby", N: 32, Run: func(i int, r *rt.Rec) { c11Run(r, gen.Rng(seed, "c11", i), n/32) }}}
+			return []rt.Phase{
+				{Name: "separator-probe", N: 1, Run: func(i int, r *rt.Rec) { c11SeparatorProbe(r) }},
+				{Name: "groupby", N: 32, Run: func(i int, r *rt.Rec) { c11Run(r, gen.Rng(seed, "c11", i), n/32) }},
+			}
 		},
 	})
 }
